@@ -10,7 +10,7 @@
 #include <string.h>
 #include <stdlib.h>
 
-enum { V_RESIZE = 1, V_RESERVE, V_SHRINK, V_CLEAR, V_SWAP, V_SORT, V_REVERSE, V_WRITE, V_AT, V_SEARCH, V_FIND, V_CHURN };
+enum { V_RESIZE = 1, V_RESERVE, V_SHRINK, V_CLEAR, V_SWAP, V_SORT, V_REVERSE, V_WRITE, V_AT, V_SEARCH, V_FIND, V_CHURN, V_SWAPDIFF };
 
 static const char *v_opname(int k)
 {
@@ -18,7 +18,7 @@ static const char *v_opname(int k)
     case V_RESIZE: return "resize"; case V_RESERVE: return "reserve"; case V_SHRINK: return "shrink_to_fit";
     case V_CLEAR: return "clear"; case V_SWAP: return "swap"; case V_SORT: return "sort";
     case V_REVERSE: return "reverse"; case V_WRITE: return "write"; case V_AT: return "at";
-    case V_SEARCH: return "search"; case V_FIND: return "find"; case V_CHURN: return "churn";
+    case V_SEARCH: return "search"; case V_FIND: return "find"; case V_CHURN: return "churn"; case V_SWAPDIFF: return "swap";
     }
     return "?";
 }
@@ -466,6 +466,41 @@ static void v_once(const plan_t *p)
             EVT(v_opname(o->kind), s, m->n, o->a[1] % 5);
             break;
         }
+        case V_SWAPDIFF: {
+            /* two vectors of DIFFERENT element sizes exchanged: everything that belongs to the object moves - also the
+             * element size, which decides every later address and byte count */
+            static const size_t ess[] = { 1, 2, 3, 4, 8, 12, 32 };
+            static cstl_vector_t va, vb; size_t ea = ess[o->a[1] % 7], eb = ess[(o->a[1] / 7 + 1 + o->a[1] % 7) % 7], na = 1 + (size_t)(o->a[2] % 9), nb2 = 1 + (size_t)(o->a[2] / 9 % 9), i, k2;
+            int bad = 0;
+            if (p->mode == 16 || ea == eb) { EVT("skip", 0, 0, 0); break; }
+            g_cur_ctx = "different-element-sizes";
+            memset(&va, (int)p->cfg[CF_JUNK], sizeof va); memset(&vb, (int)p->cfg[CF_JUNK], sizeof vb);
+            cstl_vector_init(&va, ea); cstl_vector_init(&vb, eb);
+            /* growth aborts when the allocator refuses (budget, injected failure): then there is nothing to examine */
+            TRY(cstl_vector_reserve(&va, na + 40)); TRY(cstl_vector_reserve(&vb, nb2 + 40));
+            if (cstl_vector_capacity(&va) < na + 40 || cstl_vector_capacity(&vb) < nb2 + 40) { TRY(cstl_vector_clear(&va)); TRY(cstl_vector_clear(&vb)); EVT("skip", 0, 0, 0); break; }
+            TRY(cstl_vector_resize(&va, na)); TRY(cstl_vector_resize(&vb, nb2));
+            for (i = 0; i < na; i++) memset((unsigned char *)cstl_vector_data(&va) + i * ea, (int)(0x10 + i), ea);
+            for (i = 0; i < nb2; i++) memset((unsigned char *)cstl_vector_data(&vb) + i * eb, (int)(0x80 + i), eb);
+            TRY(cstl_vector_swap(&va, &vb));
+            if (g_aborted) VIOL("abort", "swap aborted");
+            /* va now is the vector of nb2 elements of eb bytes, and the other way round */
+            if (cstl_vector_size(&va) != nb2 || cstl_vector_size(&vb) != na) VIOL("swap_size", "after swap the sizes are %zu and %zu, expected %zu and %zu", cstl_vector_size(&va), cstl_vector_size(&vb), nb2, na);
+            for (i = 0; i < nb2 && !bad; i++) { const unsigned char *q = cstl_vector_at_const(&va, i); if (q != (const unsigned char *)cstl_vector_data(&va) + i * eb) bad = 1; else for (k2 = 0; k2 < eb; k2++) if (q[k2] != (unsigned char)(0x80 + i)) bad = 2; }
+            for (i = 0; i < na && !bad; i++) { const unsigned char *q = cstl_vector_at_const(&vb, i); if (q != (const unsigned char *)cstl_vector_data(&vb) + i * ea) bad = 3; else for (k2 = 0; k2 < ea; k2++) if (q[k2] != (unsigned char)(0x10 + i)) bad = 4; }
+            if (bad) VIOL("swap_stride", "after swapping vectors of %zu-byte and %zu-byte elements at() addresses or element bytes are wrong (case %d)", ea, eb, bad);
+            /* growth must reallocate with the right stride and keep the bytes */
+            /* (the capacities were reserved before the swap and moved with the objects: va holds nb2 + 40, vb na + 40) */
+            TRY(cstl_vector_resize(&va, nb2 + 40)); if (g_aborted) VIOL("swap_capacity", "after the swap a resize within the reserved capacity aborted");
+            TRY(cstl_vector_resize(&vb, na + 40)); if (g_aborted) VIOL("swap_capacity", "after the swap a resize within the reserved capacity aborted");
+            for (i = 0; i < nb2 && !bad; i++) for (k2 = 0; k2 < eb; k2++) if (((const unsigned char *)cstl_vector_data(&va))[i * eb + k2] != (unsigned char)(0x80 + i)) bad = 5;
+            for (i = 0; i < na && !bad; i++) for (k2 = 0; k2 < ea; k2++) if (((const unsigned char *)cstl_vector_data(&vb))[i * ea + k2] != (unsigned char)(0x10 + i)) bad = 6;
+            if (bad) VIOL("swap_stride", "after swapping vectors of %zu-byte and %zu-byte elements a later resize lost or moved element bytes (case %d)", ea, eb, bad);
+            TRY(cstl_vector_clear(&va)); TRY(cstl_vector_clear(&vb));
+            PROBE("swap_different_element_sizes");
+            EVT("swapdiff", ea, eb, na * 16 + nb2);
+            break;
+        }
         case V_CHURN: {
             /* the n-th repetition: the vector grows by one element and shrinks again 254 ... 65 536 times in a row; the
              * constructor and destructor must have run once per cycle, on the slot at the old size, and nothing else moves */
@@ -650,6 +685,7 @@ static void v_gen(prng_t *r, int mode, plan_t *p)
                  : x < 71 ? V_SORT : x < 77 ? V_REVERSE : x < 92 ? V_WRITE : V_AT;
         op_t *o;
         if (kind == V_WRITE && mode == 9 && prng_chance(r, 1, 500)) kind = V_CHURN;
+        if (kind == V_SWAP && mode == 9 && prng_chance(r, 1, 3)) kind = V_SWAPDIFF;
         if (mode == 11) kind = x < 14 ? V_RESIZE : x < 18 ? V_RESERVE : x < 21 ? V_SHRINK : x < 23 ? V_CLEAR : x < 27 ? V_SWAP
                  : x < 42 ? V_SORT : x < 50 ? V_REVERSE : x < 62 ? V_WRITE : x < 82 ? V_SEARCH : x < 97 ? V_FIND : V_AT;
         o = plan_add(p, kind);
